@@ -14,13 +14,13 @@ Q == Tier = "quick"
 J(tag, files, bins) == [tag |-> tag, files |-> files, bins |-> bins]
 NoBins == <<>>
 
-ParamNs == IF Q THEN {0, 1, 2, 8, 9, 12, 13, 17, 20} ELSE 0..20
+ParamNs == IF Q THEN {0, 2, 9, 13, 17, 20} ELSE 0..20
 Ks(n) == {0, n, n + 2} \cup (IF n > 0 THEN {n - 1} ELSE {}) \cup (IF Q THEN {} ELSE {1, n + 1})
 Refs(n) == LET S == {1, 8, 9, 12, 16, 17, n} \cap 1..n
                RECURSIVE Sorted(_)
                Sorted(T) == IF T = {} THEN <<>> ELSE LET x == CHOOSE x \in T : \A y \in T : x <= y IN <<x>> \o Sorted(T \ {x})
            IN Sorted(S)
-Counts == IF Q THEN {0, 1, 2, 3, 7, 16, 17, 40} ELSE 0..40
+Counts == IF Q THEN {0, 1, 2, 7, 17, 40} ELSE 0..40
 
 CountProg(kind, n, g) ==
   LET body == <<DW(<<"C1">>), L(<<"C1">>, "SET", <<"C1", "+", "1">>)>>
@@ -55,7 +55,11 @@ Jobs ==
     [] Family = "count" ->
          {J(<<"count", kd, n>>, CountProg(kd, n, 0), NoBins) : kd \in {"REPT", "IRP", "IRPC", "WHILE"}, n \in Counts}
          \cup {J(<<"count", "REPTNEG", n>>, CountProg("REPTNEG", n, 0), NoBins) : n \in {1, 3}}
-         \cup {J(<<"count", "IRPN", g, n>>, CountProg("IRPN", n, g), NoBins) : g \in 1..4, n \in 1..(IF Q THEN 9 ELSE 17)}
+         \cup {J(<<"count", "IRPN", g, n>>, CountProg("IRPN", n, g), NoBins) : g \in 1..4, n \in 1..(IF Q THEN 7 ELSE 17)}
+    [] Family = "special" -> {J(<<"special", k>>, SpecialProg(k), NoBins) : k \in {"intlabel", "nointlabel", "pushlist", "macinmac", "globmac"}}
+    [] Family = "attr" -> {J(<<"special", "attr">>, SpecialProg("attr"), NoBins)}
+    [] Family = "nest2q" ->
+         {J(<<"nest2q">>, p, NoBins) : p \in NestPrograms(2, {0, 2}, [npre |-> 1, npost |-> 1, rich |-> FALSE])}
     [] Family = "nest2" ->
          {J(<<"nest2">>, p, NoBins) : p \in NestPrograms(2, {0, 1, 3}, [npre |-> 1, npost |-> 1, rich |-> TRUE])}
     [] OTHER ->  \* "nest3"
